@@ -10,7 +10,7 @@ BOUNDS = {
              "binary of 0..2 symbolic bytes) with 1 child (binary of 1..3 symbolic bytes, offset symbolic 0..7) or 2 children (1..2 bytes, offsets 0..5, root size 0..8), "
              "optionally one grandchild (1..2 symbolic bytes, offset 0..2 inside a child of explicit size 0..4); only "
              "layouts accepted by validate()",
-    "thorough": "as quick with up to 3 children, offsets 0..12, root size 0..16, alignments {1,4,8}",
+    "thorough": "as quick with up to 3 children (1 child: offsets 0..12, root size 0..16, 1..3 bytes; 2 children: 0..8 / 0..11 / 1..3; 3 children: 0..5 / 0..8 / 1..2), alignments {1,4,8}",
 }
 OUTSIDE = "layouts rejected by validate(); explicit size smaller than the image's own binary (export then returns more bytes than len() - precondition); 'rand' and 'inc' patterns; images above the stated sizes"
 STUBS = ["BinaryImage.__str__ -> constant"]
@@ -43,8 +43,9 @@ def cases(tier):
                             continue
                         cs.append({"id": f"export/pat={pat}/al={al}/kids={kids}/gc={int(gc)}/own={ownbin}", "h": "export",
                                    "pat": pat, "al": al, "kids": kids, "gc": gc, "own": ownbin,
-                                   "maxoff": (7 if kids == 1 else 5) if q else 12, "maxsize": (10 if kids == 1 else 8) if q else 16,
-                                   "maxlen": (3 if kids == 1 else 2) if q else 3, "weight": kids * 3 + gc})
+                                   "maxoff": (7 if kids == 1 else 5) if q else {1: 12, 2: 8, 3: 5}[kids],
+                                   "maxsize": (10 if kids == 1 else 8) if q else {1: 16, 2: 11, 3: 8}[kids],
+                                   "maxlen": (3 if kids == 1 else 2) if q else {1: 3, 2: 3, 3: 2}[kids], "weight": kids * 3 + gc})
     return cs
 
 
